@@ -121,7 +121,8 @@ def fragStructBB (n : Text.WNet) (T : Text.WDef) (kT : Nat) (ks : List Nat) : Bo
     Text.isCommentTok ("//netlist name: " ++ fixName n.name)
   | _, _ => false
 
-/-- **c04_text_bb.**  `readV (composeV n) ≈ n` with `write_blackbox = True`, from characters: the text the writer
+/-- **c04_text_bb.**  Write-then-read with `write_blackbox = True` (the default of `sdn.compose`), from characters — the top
+    module's view and the leaf interfaces are preserved (row widths: `c04_full_bb`): the text the writer
     produces (top module, then the `celldefine` modules of the primitives) is accepted by the whole reader (`lexV`,
     `parseV`, `elabDesign`), the netlist's top is elected, its definition shows the same view, and every written
     primitive comes back in `hdi_primitives` with the interface (port names, directions, base indices, widths, order) of
